@@ -51,6 +51,7 @@ def scenarios(tier, seed):
         add("replaced_targets", n=2, m=2)
         add("multitask", n=2, t=2, m=1, cfg={})
         add("multitask", n=1, t=3, m=2, cfg={"fpv": True, "detach": False})
+        add("multitask_noninterleaved", n=2, t=2, m=1)
         add("kiss", nodes=[2, 3], fpv=False, symx=True)
         add("kiss", nodes=[], fpv=False, symx=False)
         for ops in (["P0", "L"], ["P1", "O"], ["P0", "Dxy"]):
@@ -91,6 +92,12 @@ def after_history(S, ops):
     """the posterior after load_state_dict / optimiser steps / data replacement equals that of a fresh model (see C03.history)"""
     from .C03 import history
     history(S, ops)
+
+
+def multitask_noninterleaved(S, n, t, m):
+    """the same multitask exact GP whose forward returns its prior in the NON-interleaved (task-major) layout"""
+    from .C16 import multitask_exact
+    multitask_exact(S, n, t, m, "|".join(["0" * t] * n), "ignore", None, cfg={}, noninterleaved=True)
 
 
 def multitask(S, n, t, m, cfg):
